@@ -5,6 +5,10 @@
 //
 //	c20 -mode race -tier quick|thorough [-procs 2,4,16] [-k 4] [-budget seconds] [-wl a,b,c]
 //	c20 --replay <file>      lines: race procs=<p> k=<k> rounds=<r> | wl <name> | wl <name> ...
+//	c20 -mode cold -wl a[,b] -procs 4 -k 4       ONE round as the first thing this process does, then exit
+//	c20 -mode coldsweep [-wl ...] [-procs 4,16] [-reps 1] [-budget s]   re-executes itself in cold mode, one fresh
+//	                         process per (workload, GOMAXPROCS, repetition): first-use races (lazy initialisation of a
+//	                         package-level variable) exist only until the process has used the code once
 //	c20 -mode list
 package main
 
@@ -13,6 +17,7 @@ import (
 	"flag"
 	"fmt"
 	"os"
+	"os/exec"
 	"runtime"
 	"strconv"
 	"strings"
@@ -108,9 +113,12 @@ func wlIndex(name string) int {
 	return -1
 }
 
+// casePrefix: "race" for rounds of a long-lived process, "cold" for the single round of a fresh process
+var casePrefix = "race"
+
 func caseLine(procs, k, rounds int, slots []slot, status map[int]string) string {
 	var b strings.Builder
-	fmt.Fprintf(&b, "race procs=%d k=%d rounds=%d", procs, k, rounds)
+	fmt.Fprintf(&b, "%s procs=%d k=%d rounds=%d", casePrefix, procs, k, rounds)
 	for j, s := range slots {
 		st := "ok"
 		if v, ok := status[j]; ok {
@@ -122,7 +130,8 @@ func caseLine(procs, k, rounds int, slots []slot, status map[int]string) string 
 }
 
 func main() {
-	mode := flag.String("mode", "race", "race | list | seq")
+	mode := flag.String("mode", "race", "race | cold | coldsweep | list | seq")
+	repsF := flag.Int("reps", 1, "coldsweep: fresh processes per (workload, GOMAXPROCS)")
 	tier := flag.String("tier", "quick", "quick | thorough")
 	procsF := flag.String("procs", "2,4,16", "GOMAXPROCS settings")
 	kF := flag.Int("k", 0, "goroutines per round (0: tier default)")
@@ -201,6 +210,38 @@ func main() {
 		}
 	}
 
+	// spawnCold runs ONE round in a fresh process (this executable in cold mode) and relays its output.
+	// A child that reports a race (66), a differing result (3) or a hang (4) ends the run with the same status.
+	spawnCold := func(procs, k int, wls []string) {
+		out.Flush()
+		self, err := os.Executable()
+		if err != nil {
+			fmt.Fprintln(os.Stderr, err)
+			os.Exit(2)
+		}
+		cmd := exec.Command(self, "-mode", "cold", "-wl", strings.Join(wls, ","), "-procs", strconv.Itoa(procs), "-k", strconv.Itoa(k))
+		cmd.Stderr = os.Stderr
+		b, err := cmd.Output()
+		out.Write(b)
+		cases++
+		for _, w := range wls {
+			perWl[w]++
+		}
+		if procs > maxProcs {
+			maxProcs = procs
+		}
+		distinct[fmt.Sprintf("cold:%d:%s", procs, strings.Join(wls, ","))] = true
+		gruns += k
+		if err != nil {
+			out.Flush()
+			if ee, ok := err.(*exec.ExitError); ok {
+				os.Exit(ee.ExitCode())
+			}
+			fmt.Fprintln(os.Stderr, err)
+			os.Exit(2)
+		}
+	}
+
 	if *replay != "" {
 		f, err := os.Open(*replay)
 		if err != nil {
@@ -224,15 +265,29 @@ func main() {
 					rounds, _ = strconv.Atoi(v)
 				}
 			}
+			kk := 2
+			for _, f := range strings.Fields(parts[0]) {
+				if v, ok := strings.CutPrefix(f, "k="); ok {
+					kk, _ = strconv.Atoi(v)
+				}
+			}
 			var slots []slot
+			var names []string
 			for _, p := range parts[1:] {
 				p = strings.TrimSpace(strings.SplitN(p, "->", 2)[0])
 				fs := strings.Fields(p)
 				if len(fs) == 2 && fs[0] == "wl" {
 					if wi := wlIndex(fs[1]); wi >= 0 {
 						slots = append(slots, slot{wi, len(slots)})
+						names = append(names, fs[1])
 					}
 				}
+			}
+			if strings.HasPrefix(parts[0], "cold") { // `rounds` fresh processes, one round each
+				for r := 0; r < rounds && len(names) > 0; r++ {
+					spawnCold(procs, kk, names)
+				}
+				continue
 			}
 			if len(slots) == 1 { // a single workload: two goroutines, each with its own instances of it
 				slots = append(slots, slot{slots[0].wi, 1})
@@ -268,6 +323,62 @@ func main() {
 				fmt.Fprintf(out, "%s#%d %s unstable=%v\n", workloads[wi].name, inst, base(wi, inst), unstable[wi])
 			}
 		}
+		return
+	}
+
+	var procsEarly []int
+	for _, p := range strings.Split(*procsF, ",") {
+		if v, err := strconv.Atoi(strings.TrimSpace(p)); err == nil && v > 0 {
+			procsEarly = append(procsEarly, v)
+		}
+	}
+	if *mode == "cold" {
+		casePrefix = "cold"
+		kk := *kF
+		if kk <= 0 {
+			kk = 2
+		}
+		var slots []slot
+		if len(enabled) == 1 {
+			for j := 0; j < kk; j++ {
+				slots = append(slots, slot{enabled[0], j})
+			}
+		} else {
+			for j, wi := range enabled {
+				slots = append(slots, slot{wi, j})
+			}
+		}
+		if len(slots) > 0 && len(procsEarly) > 0 {
+			doRound(procsEarly[0], slots, 1)
+		}
+		fail()
+		return
+	}
+	if *mode == "coldsweep" {
+		kk := *kF
+		if kk <= 0 {
+			kk = 4
+		}
+		secs := *budget
+		if secs == 0 {
+			secs = 12
+		}
+		t0 := time.Now()
+		r := rng.FromEnv(21)
+		off := r.Intn(len(enabled)) // a different rotation of the workloads for every seed
+		n := 0
+	sweep:
+		for rep := 0; rep < *repsF; rep++ {
+			for i := range enabled {
+				if time.Since(t0).Seconds() > secs {
+					break sweep
+				}
+				p := procsEarly[(n+rep)%len(procsEarly)]
+				spawnCold(p, kk, []string{workloads[enabled[(i+off)%len(enabled)]].name})
+				n++
+			}
+		}
+		fmt.Fprintf(out, "STAT cases=%d\nSTAT nontrivial=%d\nSTAT goroutine_runs=%d\nSTAT cold_processes=%d\nSTAT max_gomaxprocs=%d\n", cases, len(distinct), gruns, n, maxProcs)
 		return
 	}
 
